@@ -9,6 +9,11 @@ mod neri_schneider;
 
 pub(crate) use neri_schneider::epoch_days_from_gregorian_date;
 
+#[cfg(temporal_verif)]
+pub(crate) mod neri_schneider_verif {
+    pub use super::neri_schneider::{epoch_days_from_gregorian_date, ymd_from_epoch_days};
+}
+
 // NOTE: Potentially add more of tests.
 
 // ==== Begin Date Equations ====
